@@ -79,6 +79,11 @@ def cases(rng, tier):
         out.append(mk_case(p, "random_dag"))
     for i in range(nrand // 5):
         out.append(mk_case(W.diamond_program(rng, "pc" if i % 3 == 0 else "global"), "diamond_across_stages"))
+    # single-stage modules with variables that have no binding (workgroup / private): a resource first used by a LATER
+    # entry point has the stage like any other; modules without any binding whose push constant some stages use
+    for i in range(nrand // 25):
+        out.append(mk_case(W.single_stage_late_user_program(rng, rng.choice(["compute", "compute", "fragment"])), "single_stage_late_user"))
+        out.append(mk_case(W.pc_only_program(rng), "pc_without_bindings"))
     # many functions: handles above 255 / 63 must be tracked like any other
     for nh in ((70, 300) if tier != "thorough" else (70, 130, 300, 600)):
         p = W.Program()
